@@ -13,13 +13,16 @@ from ..eio_client import ClientHarness
 PID = 'C10'
 KNOWN = set()
 KF_STALE = 'no-new-effort-after-finished-effort'
+KF_LATE = 'connect-reply-processed-after-transport-loss'
 RULE = ('Configuration grid reconnection on/off x reconnection_attempts '
         '{0,1,2,5} x reconnection_delay {0.1,1,3} x reconnection_delay_max '
         '{0.5,5,100} x randomization_factor {0,0.5,1}; connection parameters '
         'as values or callables, 1-3 namespaces; cause of loss {transport '
         'error, client disconnect(), server DISCONNECT of the last '
         'namespace, server CLOSE}; outcome pattern of the successive '
-        'attempts {transport failure, namespace refusal, transport lost again before the namespaces are answered, success} (all '
+        'attempts {transport failure, namespace refusal, transport lost again before the namespaces are answered, '
+        'lost between the answers and connect() waking up, lost with the '
+        'loss processed before the answers\' handler tasks, success} (all '
         'patterns up to length 4 enumerated, longer ones sampled); '
         'shutdown() during the k-th back-off wait; the application connect '
         'handler of one namespace raising, or stalling longer than the '
@@ -87,7 +90,9 @@ def strategy(tier):
         'cause': st.sampled_from(['lose', 'lose', 'lose', 'disconnect',
                                   'sdisc_last', 'close']),
         'outcomes': st.lists(st.sampled_from(['fail', 'fail', 'refuse',
-                                              'drop', 'ok']), max_size=8),
+                                              'drop', 'drop_after',
+                                              'drop_inverted', 'ok']),
+                             max_size=8),
         'abort_at': st.one_of(st.none(), st.none(), st.integers(1, 6)),
         'second_loss': st.booleans(), 'manual': st.booleans(),
         # the application's connect handler of one namespace faults at its
@@ -164,6 +169,7 @@ def _run(case, h):
     reader = wire.Reader()
     backoffs = []        # recorded back-off waits
     cur = {'outcome': 'ok'}
+    inverted = [False]
     labels = {'aio': aio, 'cause': case['cause'], 'nontrivial': False}
 
     def answers(*_):
@@ -186,6 +192,71 @@ def _run(case, h):
                 h.deliver(f)
             return
         if cur['outcome'] == 'refuse':
+            return
+        if cur['outcome'] == 'drop_inverted':
+            if cur.get('refused'):
+                return
+            # the read loop reads the server's CONNECT replies and the end of
+            # the transport back to back: it reports the loss itself, the
+            # replies are handled by background tasks / threads that only
+            # run afterwards
+            cur['refused'] = True
+            inverted[0] = True
+            frs = [f for n in pend for f in wire.frames(
+                wire.CONNECT, n, None, {'sid': 'sid-%d-%s' % (h.n_conn, n)})]
+            if aio:
+                from engineio import packet as ep
+                for f in frs:
+                    h.loop.spawn(h.eio._receive_packet(
+                        ep.Packet(ep.MESSAGE, f)))
+
+                async def tail2():
+                    await h.eio._trigger_event(
+                        'disconnect', h.reason.TRANSPORT_ERROR,
+                        run_async=False)
+                    await h.eio._reset()
+                h.loop.spawn(tail2())
+                h.loop.run_until_idle()
+            else:
+                saved_mode = h.bg_mode
+                h.bg_mode = 'collect'
+                try:
+                    for f in frs:
+                        h.deliver(f)
+                finally:
+                    h.bg_mode = saved_mode
+                h.lose()
+                h.settle()
+            return
+        if cur['outcome'] == 'drop_after':
+            if cur.get('refused'):
+                return
+            # every namespace is accepted, and the transport is lost again
+            # before connect() gets to look at the result
+            cur['refused'] = True
+            frs = [f for n in pend for f in wire.frames(
+                wire.CONNECT, n, None, {'sid': 'sid-%d-%s' % (h.n_conn, n)})]
+            if aio:
+                from engineio import packet as ep
+                for f in frs:
+                    h.loop.spawn(h.eio._receive_packet(
+                        ep.Packet(ep.MESSAGE, f)))
+                # the read loop hands the packets to their handler tasks ...
+                h.loop.step()
+
+                # ... and notices the loss: the handler tasks run first, then
+                # the loss is processed, then connect() wakes up
+                async def tail():
+                    await h.eio._trigger_event(
+                        'disconnect', h.reason.TRANSPORT_ERROR,
+                        run_async=False)
+                    await h.eio._reset()
+                h.loop.spawn(tail())
+                h.loop.run_until_idle()
+            else:
+                for f in frs:
+                    h.deliver(f)
+                h.lose()
             return
         for n in pend:
             for f in wire.frames(wire.CONNECT, n, None,
@@ -211,7 +282,11 @@ def _run(case, h):
 
     if aio:
         async def rec_wait_for(fut, timeout):
-            if h.eio.state == 'connected' or not state.get('active'):
+            frame = getattr(fut, 'cr_frame', None)
+            waited = frame.f_locals.get('self') if frame is not None else None
+            if waited is not sio._reconnect_abort or \
+                    not state.get('active'):
+                # connect() waiting for the server's answers
                 state['phase'] = 'connect'
                 try:
                     return await rec_wait_for.orig(fut, timeout)
@@ -289,7 +364,9 @@ def _run(case, h):
                     break
                 if h.eio.state == 'connected' and any(
                         n not in sio.namespaces for n in nss) and \
-                        not (cur['outcome'] in ('refuse', 'drop') and
+                        not (cur['outcome'] in ('refuse', 'drop',
+                                                'drop_after',
+                                                'drop_inverted') and
                              cur.get('refused')):
                     answers()
                     h.loop.run_until_idle()
@@ -377,7 +454,8 @@ def _run(case, h):
                                len(opened)))
         newc = [e for e in log[conn_before:] if e[0] == 'connect']
         if how == 'success':
-            refused_ns = sum(1 for o in opened if o in ('refuse', 'drop'))
+            refused_ns = sum(1 for o in opened if o in (
+                'refuse', 'drop', 'drop_after', 'drop_inverted'))
             okc = sorted(e[1] for e in newc)
             # attempts that ended in a refusal may have connected some
             # namespaces first; the successful one connects all of them
@@ -440,6 +518,18 @@ def _run(case, h):
     chf_state['on'] = False
     if aio:
         h.loop.run_until_idle()
+    if inverted[0] and sio.connected and h.eio.state != 'connected':
+        # the effort ended "successfully" on a connection that was already
+        # dead: the late CONNECT reply re-registered the namespaces
+        det = ('a reconnection attempt whose CONNECT replies were handled '
+               'after the loss of that transport had been processed: '
+               'connect() succeeded, the effort stopped, connected=%r '
+               'namespaces=%r over a transport in state %r'
+               % (sio.connected, dict(sio.namespaces), h.eio.state))
+        if KF_LATE in KNOWN:
+            labels['kf:' + KF_LATE] = True
+            return labels
+        raise Violation(KF_LATE, det)
     n_att, how = check_effort(waits, n0, cb, ab, ub, case['outcomes'],
                               case['abort_at'], limit, 'first effort')
     if chf_state['hit']:
